@@ -112,4 +112,13 @@ TEXT["C18"] = {
     "note": COMMON_NOTE + "The reverse tracker producing the explanations is not modelled (oracle correspondence).",
     "technique": "Lean 4 theorems (frame resolution) + oracle correspondence by forward single-fault re-simulation",
 }
+TEXT["C14"] = {
+    "level": "Kernel-checked: in the flow model (Bell-pair purification; one GF(2)-linear constraint per gauge Pauli; sign from the reference run) the unsigned flows of any circuit context are closed under "
+             "products, the flow vector of a product is the XOR of the vectors, the empty flow holds, repeating a measurement twice is a no-op. Correspondence: has_flow (signed sampling and unsigned reverse "
+             "tracking), flow_generators (validity, independence, count = dimension of the model's flow space) and solve_flow_measurements (solutions valid; 'none' only when the model's linear system is "
+             "unsolvable) agree with the model's decisions on generated circuits and flows.",
+    "note": COMMON_NOTE + "The flow model is built from the tableau and frame models that C01/C02/C04 tie to the simulators. The sign of flows mentioning observables with Pauli targets is not decided by the model "
+            "(their unsigned part is). Four genuine defects fixed (measure-reset with repeated targets, MPAD values reversed, imaginary flag read at the wrong row, flag bitset sized by qubits: heap overflow).",
+    "technique": "Lean 4 theorems (linearity of the flow constraints) + equality/oracle correspondence with an exact forward-simulation decision procedure",
+}
 NOT_CLAIMED = {}
